@@ -101,13 +101,29 @@ type BindSpec struct {
 	Macro  bool   `json:"macro,omitempty"`
 }
 
+// ParseSpec asks the child to parse an inputrc text (no terminal involved).
+type ParseSpec struct {
+	Text      []byte            `json:"text"`
+	Files     map[string][]byte `json:"files,omitempty"`   // served by the handler's ReadFile
+	ReadErr   map[string]string `json:"readerr,omitempty"` // files whose read fails with this error
+	HaltOnErr bool              `json:"halt,omitempty"`
+	Strict    bool              `json:"strict,omitempty"`
+	App       string            `json:"app,omitempty"`
+	Term      string            `json:"term,omitempty"`
+	Mode      string            `json:"mode,omitempty"`
+	Name      string            `json:"name,omitempty"`
+	Handler   string            `json:"handler,omitempty"` // config | default
+	API       string            `json:"api,omitempty"`     // bytes | reader | file
+}
+
 // Op is a message on the ops pipe.
 type Op struct {
-	Op    string `json:"op"` // session | printf | release | stacks | quit | parse | describe | transientf
-	Spec  *Spec  `json:"spec,omitempty"`
-	Text  string `json:"text,omitempty"`
-	Probe string `json:"probe,omitempty"`
-	Tag   int    `json:"tag,omitempty"`
+	Parse *ParseSpec `json:"parse,omitempty"`
+	Op    string     `json:"op"` // session | printf | release | stacks | quit | parse | describe | transientf
+	Spec  *Spec      `json:"spec,omitempty"`
+	Text  string     `json:"text,omitempty"`
+	Probe string     `json:"probe,omitempty"`
+	Tag   int        `json:"tag,omitempty"`
 }
 
 // Gate is an answer to a park, on the gate pipe.
@@ -171,6 +187,9 @@ type Event struct {
 	// completer calls
 	CompLine string `json:"compline,omitempty"`
 	CompPos  int    `json:"comppos,omitempty"`
+	// parsed
+	NBinds int `json:"nbinds,omitempty"`
+	NVars  int `json:"nvars,omitempty"`
 	// generic
 	Msg string `json:"msg,omitempty"`
 }
